@@ -137,6 +137,7 @@ type handler struct {
 	Handler Handler
 
 	sendChan       chan hwebsocket.Msg
+	closing        chan struct{}
 	sender         hwebsocket.Sender
 	dispatcher     hwebsocket.Dispatcher
 	consumer       hwebsocket.Consumer
@@ -160,6 +161,7 @@ func (h *handler) Handle(ctx context.Context) {
 	var wg sync.WaitGroup
 
 	h.sendChan = make(chan hwebsocket.Msg, sendChanSize)
+	h.closing = make(chan struct{})
 	h.sender = h.Handler.Sender()
 
 	wg.Add(1)
@@ -233,11 +235,18 @@ func (h *handler) send(protoMsg hwebsocket.ProtoMsg) {
 			Debug(err)
 		return
 	}
-	h.sendChan <- msg
+	h.sendMsg(msg)
 }
 
 func (h *handler) sendMsg(msg hwebsocket.Msg) {
-	h.sendChan <- msg
+	select {
+	case h.sendChan <- msg:
+
+	case <-h.closing:
+		// The connection is being closed: nobody reads the channel anymore.
+		// Blocking here would block the sender of the message, which can be
+		// another participant broadcasting to its session.
+	}
 }
 
 func (h *handler) startSending(ctx context.Context) {
@@ -372,6 +381,13 @@ func (h *handler) disconnect(err error) {
 }
 
 func (h *handler) handleDisconnect(err error) {
+	close(h.closing)
+
+	// Closing the WebSocket connection sends a close frame, which requires
+	// the write lock: when the client does not read what it is sent, that
+	// lock is held by a write that never completes. Make pending and further
+	// writes fail instead of waiting for the client.
+	h.Conn.SetWriteDeadline(time.Now())
 	h.Conn.Close()
 	h.Handler.HandleDisconnect(err)
 }
